@@ -194,10 +194,16 @@ pub fn failable_positions(prog: &Prog, r: &RefRun) -> Vec<(u32, u32)> {
 }
 
 pub fn random_caller(rng: &mut Rng) -> CallerName {
-    match rng.below(10) {
+    // the branch threads are named after whatever the caller is called: also names that already look like a branch thread's,
+    // the empty name, a non-ASCII name, a name longer than the 15 bytes the OS keeps, a name ending in digits
+    match rng.below(14) {
         0 => CallerName::Named("w-7".into()),
-        1 => CallerName::Unnamed,
-        2 => CallerName::Named("pool_join_1".into()),
+        1 | 2 => CallerName::Unnamed,
+        3 => CallerName::Named("pool_join_1".into()),
+        4 => CallerName::Named(String::new()),
+        5 => CallerName::Named("arbeiter-\u{00df}\u{00e4}_join_".into()),
+        6 => CallerName::Named("tokio-runtime-worker-blocking-pool-thread-0123456789-abcdefghijklmnopqrstuvwxyz-42".into()),
+        7 => CallerName::Named("join_0".into()),
         _ => CallerName::Main,
     }
 }
